@@ -7,7 +7,8 @@ import numpy as np
 from hypothesis import strategies as st
 
 from .. import gen
-from ..config import BUILTIN_SOILS, CROPS, cfg_hash, crop_params, describe
+from ..config import BUILTIN_SOILS, CROPS, cfg_hash, describe
+from ..config import PRISTINE_CROP_PARAMS as crop_params
 from ..engine import Result
 from .common import F, base_sample, cfg_simplifications, exception_of, observe, rows
 from ..observe import is_malformed_date_error
